@@ -466,6 +466,9 @@ func (d *diskFlow) exit(x *Exec, ret *ast.ReturnStmt, s St) {
 
 func returnOrdinal(fn *FlowFn, ret *ast.ReturnStmt) int {
 	n := 0
+	if ret == nil {
+		return 0 // falling off the end of the function
+	}
 	ast.Inspect(fn.Body, func(m ast.Node) bool {
 		if _, ok := m.(*ast.FuncLit); ok {
 			return false
